@@ -319,4 +319,344 @@ theorem read_ellipsis_model_eq_source (pre s : Text) :
   | error e => rfl
   | ok rest => simp [Py.tok2, Lex.posAt]
 
+/-! ### `Lexer._read_number` (calls the translated `_read_over_integer` / `_read_over_digits`; join points `.kN`) -/
+
+abbrev NumRes := Except String ((Bool × Int × Int × List Nat) × Int)
+
+private theorem gi_at {α} (pre : List α) (c : α) (t : List α) : Py.getItem (pre ++ c :: t) (pre.length : Int) = .ok c := by
+  have h1 : ¬ ((pre.length : Int) < 0) := by omega
+  have h2 : 0 ≤ (pre.length : Int) ∧ (pre.length : Int) < (((pre ++ c :: t).length : Nat) : Int) := by
+    simp only [List.length_append, List.length_cons]; omega
+  simp only [Py.getItem, Py.itemIdx, h1, if_false, Int.ofNat_eq_natCast, h2, and_self, if_true, Int.toNat_natCast]
+  simp
+
+private theorem gi_end {α} (pre : List α) : Py.getItem (pre ++ []) (pre.length : Int) = .error "IndexError" := by
+  have h1 : ¬ ((pre.length : Int) < 0) := by omega
+  have h2 : ¬ (0 ≤ (pre.length : Int) ∧ (pre.length : Int) < (((pre ++ []).length : Nat) : Int)) := by simp
+  simp only [Py.getItem, Py.itemIdx, h1, if_false, Int.ofNat_eq_natCast, h2]
+
+def T7 (src : Text) (start : Int) (isf : Bool) (s4 : Text) : NumRes :=
+  .ok ((isf, start, ((src.length - s4.length : Nat) : Int), Py.slice src start ((src.length - s4.length : Nat) : Int)),
+       ((src.length - s4.length : Nat) : Int))
+def T6 (src : Text) (start : Int) (isf : Bool) (s4 : Text) : NumRes :=
+  match Lex.numberLookahead src.length s4 with
+  | .ok () => T7 src start isf s4
+  | .error e => .error (excName e.kind)
+def TD (src : Text) (start : Int) (isf : Bool) (u : Text) : NumRes :=
+  match Lex.readOverDigits src.length u with
+  | .error e => .error (excName e.kind)
+  | .ok r => T6 src start isf r
+def T5 (src : Text) (start : Int) (isf : Bool) (s3 : Text) : NumRes :=
+  match Lex.readExponent src.length s3 with
+  | .error e => .error (excName e.kind)
+  | .ok (f2, s4) => T6 src start (isf || f2) s4
+def T3 (src : Text) (start : Int) (isf : Bool) (s2 : Text) : NumRes :=
+  match Lex.readFraction src.length s2 with
+  | .error e => .error (excName e.kind)
+  | .ok (f1, s3) => T5 src start (isf || f1) s3
+def T2 (src : Text) (start : Int) (s1 : Text) : NumRes :=
+  match Lex.readOverInteger src.length s1 with
+  | .error e => .error (excName e.kind)
+  | .ok s2 => T3 src start false s2
+
+private theorem digits_suffix {n : Nat} {s r : Text} (h : Lex.readOverDigits n s = .ok r) : ∃ l, s = l ++ r := by
+  cases s with
+  | nil => simp [Lex.readOverDigits] at h
+  | cons c t =>
+    simp only [Lex.readOverDigits] at h
+    split at h
+    · simp only [Except.ok.injEq] at h; subst h
+      exact ⟨c :: t.takeWhile Lex.isDigit, by simp [List.takeWhile_append_dropWhile]⟩
+    · cases h
+
+private theorem integer_suffix {n : Nat} {s r : Text} (h : Lex.readOverInteger n s = .ok r) : ∃ l, s = l ++ r := by
+  cases s with
+  | nil => simp [Lex.readOverInteger] at h
+  | cons c t =>
+    simp only [Lex.readOverInteger] at h
+    split at h
+    · split at h
+      · simp only [Except.ok.injEq] at h; subst h; exact ⟨[c], rfl⟩
+      · split at h
+        · cases h
+        · simp only [Except.ok.injEq] at h; subst h; exact ⟨[c], rfl⟩
+    · exact digits_suffix h
+
+private theorem l7 (pre s4 : Text) (start : Int) (isf : Bool) :
+    Tr.Lexer._read_number.k7 (pre ++ s4) (pre.length : Int) start isf = T7 (pre ++ s4) start isf s4 := by
+  have : (pre ++ s4).length - s4.length = pre.length := by simp
+  unfold Tr.Lexer._read_number.k7 T7
+  rw [this]
+  cases isf <;> simp [Py.tokNum]
+
+private theorem nameStart_eq (c : Nat) :
+    ((c == 95) || (([97, 98, 99, 100, 101, 102, 103, 104, 105, 106, 107, 108, 109, 110, 111, 112, 113, 114, 115, 116, 117, 118, 119, 120, 121, 122, 65, 66, 67, 68, 69, 70, 71, 72, 73, 74, 75, 76, 77, 78, 79, 80, 81, 82, 83, 84, 85, 86, 87, 88, 89, 90] : List Nat).contains c))
+      = Lex.isNameStart c := by
+  unfold Lex.isNameStart Lex.isLetter Generated.LexTables.asciiLetters; rfl
+
+private theorem l6 (pre s4 : Text) (start : Int) (isf : Bool) :
+    Tr.Lexer._read_number.k6 (pre ++ s4) start (pre.length : Int) isf = T6 (pre ++ s4) start isf s4 := by
+  unfold Tr.Lexer._read_number.k6 T6 Lex.numberLookahead
+  cases s4 with
+  | nil =>
+    have := l7 pre [] start isf
+    simp only [gi_end]; simpa using this
+  | cons c t =>
+    simp only [gi_at, nameStart_eq]
+    by_cases hc : Lex.isNameStart c = true
+    · simp [hc, excName]
+    · simp [hc, l7]
+
+private theorem l9 (pre u : Text) (start : Int) (isf : Bool) :
+    Tr.Lexer._read_number.k9 (pre ++ u) start isf (pre.length : Int) = TD (pre ++ u) start isf u := by
+  unfold Tr.Lexer._read_number.k9 TD
+  rw [read_over_digits_model_eq_source pre u]
+  cases h : Lex.readOverDigits (pre ++ u).length u with
+  | error e => rfl
+  | ok r =>
+    obtain ⟨l, rfl⟩ := digits_suffix h
+    have e1 : pre ++ (l ++ r) = (pre ++ l) ++ r := by simp
+    have e2 : (((pre ++ (l ++ r)).length - r.length : Nat) : Int) = (((pre ++ l).length : Nat) : Int) := by simp; omega
+    simp only [e2]
+    rw [e1, l6]
+
+
+private theorem signs_eq (x : Nat) : (([43, 45] : List Nat).contains x) = decide (x = 43 ∨ x = 45) := by
+  by_cases h1 : x = 43 <;> by_cases h2 : x = 45 <;> simp [h1, h2]
+
+private theorem l8 (pre t : Text) (start : Int) (isf : Bool) :
+    Tr.Lexer._read_number.k8 (pre ++ t) (pre.length : Int) start isf t.head? = TD (pre ++ t) start isf (Lex.skipSign t) := by
+  unfold Tr.Lexer._read_number.k8
+  cases t with
+  | nil =>
+    have := l9 pre [] start isf
+    simpa [Lex.skipSign] using this
+  | cons x u =>
+    simp only [List.head?_cons, Option.isSome_some, Bool.true_and, signs_eq, Lex.skipSign]
+    by_cases hx : x = 43 ∨ x = 45
+    · have e1 : pre ++ x :: u = (pre ++ [x]) ++ u := by simp
+      have e2 : (pre.length : Int) + 1 = (((pre ++ [x]).length : Nat) : Int) := by simp
+      simp only [hx, decide_true, if_true]
+      rw [e2, e1, l9]
+    · simp only [hx, decide_false, Bool.false_eq_true, if_false]
+      exact l9 pre (x :: u) start isf
+
+private theorem exps_eq (x : Nat) : (([101, 69] : List Nat).contains x) = decide (x = 101 ∨ x = 69) := by
+  by_cases h1 : x = 101 <;> by_cases h2 : x = 69 <;> simp [h1, h2]
+
+private theorem l5 (pre s3 : Text) (start : Int) (isf : Bool) :
+    Tr.Lexer._read_number.k5 (pre ++ s3) (pre.length : Int) start isf s3.head? = T5 (pre ++ s3) start isf s3 := by
+  unfold Tr.Lexer._read_number.k5 T5 Lex.readExponent
+  cases s3 with
+  | nil =>
+    have := l6 pre [] start isf
+    simpa using this
+  | cons c t =>
+    simp only [List.head?_cons, Option.isSome_some, Bool.true_and, exps_eq]
+    by_cases hc : c = 101 ∨ c = 69
+    · have e1 : pre ++ c :: t = (pre ++ [c]) ++ t := by simp
+      have e2 : (pre.length : Int) + 1 = (((pre ++ [c]).length : Nat) : Int) := by simp
+      simp only [hc, decide_true, if_true]
+      rw [e2, e1]
+      have h8 := l8 (pre ++ [c]) t start true
+      cases t with
+      | nil =>
+        simp only [gi_end]
+        simp only [List.head?_nil] at h8
+        simp only [beq_self_eq_true, if_true, h8, TD]
+        cases Lex.readOverDigits (pre ++ [c] ++ []).length (Lex.skipSign []) <;> simp [Except.map]
+      | cons x u =>
+        simp only [gi_at]
+        simp only [List.head?_cons] at h8
+        simp only [h8, TD]
+        cases Lex.readOverDigits (pre ++ [c] ++ x :: u).length (Lex.skipSign (x :: u)) <;> simp [Except.map]
+    · simp only [hc, decide_false, Bool.false_eq_true, if_false]
+      have := l6 pre (c :: t) start isf
+      simpa using this
+
+private theorem l4 (pre s3 : Text) (start : Int) (ch : Option Nat) (isf : Bool) :
+    Tr.Lexer._read_number.k4 (pre ++ s3) start ch (pre.length : Int) isf = T5 (pre ++ s3) start isf s3 := by
+  unfold Tr.Lexer._read_number.k4
+  have h5 := l5 pre s3 start isf
+  cases s3 with
+  | nil => simp only [gi_end]; simpa using h5
+  | cons c t => simp only [gi_at]; simpa using h5
+
+private theorem l3 (pre s2 : Text) (start : Int) (isf : Bool) :
+    Tr.Lexer._read_number.k3 (pre ++ s2) (pre.length : Int) start isf s2.head? = T3 (pre ++ s2) start isf s2 := by
+  unfold Tr.Lexer._read_number.k3 T3 Lex.readFraction
+  cases s2 with
+  | nil =>
+    have := l4 pre [] start none isf
+    simpa using this
+  | cons c t =>
+    by_cases hc : c = 46
+    · subst hc
+      have e1 : pre ++ 46 :: t = (pre ++ [46]) ++ t := by simp
+      have e2 : (pre.length : Int) + 1 = (((pre ++ [46]).length : Nat) : Int) := by simp
+      simp only [List.head?_cons, beq_self_eq_true, if_true]
+      rw [e2, e1, read_over_digits_model_eq_source (pre ++ [46]) t]
+      cases h : Lex.readOverDigits (pre ++ [46] ++ t).length t with
+      | error e => simp [Except.map]
+      | ok r =>
+        obtain ⟨l, rfl⟩ := digits_suffix h
+        have e3 : pre ++ [46] ++ (l ++ r) = (pre ++ [46] ++ l) ++ r := by simp
+        have e4 : (((pre ++ [46] ++ (l ++ r)).length - r.length : Nat) : Int) = (((pre ++ [46] ++ l).length : Nat) : Int) := by
+          simp; omega
+        simp only [e4, Except.map]
+        rw [e3, l4]
+        simp
+    · have hb : (some c == some 46) = false := by simp [hc]
+      simp only [List.head?_cons, hb, Bool.false_eq_true, if_false, hc]
+      have := l4 pre (c :: t) start (some c) isf
+      simpa using this
+
+private theorem l2 (pre s1 : Text) (start : Int) (ch : Option Nat) :
+    Tr.Lexer._read_number.k2 (pre ++ s1) start false ch (pre.length : Int) = T2 (pre ++ s1) start s1 := by
+  unfold Tr.Lexer._read_number.k2 T2
+  rw [read_over_integer_model_eq_source pre s1]
+  cases h : Lex.readOverInteger (pre ++ s1).length s1 with
+  | error e => rfl
+  | ok r =>
+    obtain ⟨l, rfl⟩ := integer_suffix h
+    have e3 : pre ++ (l ++ r) = (pre ++ l) ++ r := by simp
+    have e4 : (((pre ++ (l ++ r)).length - r.length : Nat) : Int) = (((pre ++ l).length : Nat) : Int) := by simp; omega
+    simp only [e4]
+    rw [e3]
+    have h3 := l3 (pre ++ l) r start false
+    cases r with
+    | nil => simp only [gi_end]; simpa using h3
+    | cons c t => simp only [gi_at]; simpa using h3
+
+private theorem l1 (pre s : Text) (start : Int) :
+    Tr.Lexer._read_number.k1 (pre ++ s) (pre.length : Int) start false s.head? = T2 (pre ++ s) start (Lex.skipMinus s) := by
+  unfold Tr.Lexer._read_number.k1
+  cases s with
+  | nil =>
+    have := l2 pre [] start none
+    simpa [Lex.skipMinus] using this
+  | cons c t =>
+    by_cases hc : c = 45
+    · subst hc
+      have e1 : pre ++ 45 :: t = (pre ++ [45]) ++ t := by simp
+      have e2 : (pre.length : Int) + 1 = (((pre ++ [45]).length : Nat) : Int) := by simp
+      simp only [List.head?_cons, beq_self_eq_true, if_true, Lex.skipMinus]
+      rw [e2, e1, l2]
+    · have hb : (some c == some 45) = false := by simp [hc]
+      simp only [List.head?_cons, hb, Bool.false_eq_true, if_false, Lex.skipMinus, hc]
+      exact l2 pre (c :: t) start (some c)
+
+private theorem read_number_stage (pre s : Text) :
+    Tr.Lexer._read_number (pre ++ s) (pre.length : Int) = T2 (pre ++ s) (pre.length : Int) (Lex.skipMinus s) := by
+  unfold Tr.Lexer._read_number
+  have h1 := l1 pre s (pre.length : Int)
+  cases s with
+  | nil => simp only [gi_end]; simpa using h1
+  | cons c t => simp only [gi_at]; simpa using h1
+
+private theorem slice_mid' {α} (pre s : List α) (k : Nat) (hk : k ≤ s.length) :
+    Py.slice (pre ++ s) (pre.length : Int) ((pre.length + k : Nat) : Int) = s.take k := by
+  have h1 : ¬ ((pre.length : Int) < 0) := by omega
+  have h2 : ¬ (((pre.length + k : Nat) : Int) < 0) := by omega
+  simp only [Py.slice, Py.normIdx, h1, h2, if_false, Int.toNat_natCast, List.length_append]
+  rw [Nat.min_eq_left (by omega), Nat.min_eq_left (by omega), List.take_append, List.drop_append]
+  simp
+
+private theorem fraction_suffix {n : Nat} {s r : Text} {f : Bool} (h : Lex.readFraction n s = .ok (f, r)) : ∃ l, s = l ++ r := by
+  cases s with
+  | nil => simp [Lex.readFraction] at h; exact ⟨[], by simp [h.2]⟩
+  | cons c t =>
+    simp only [Lex.readFraction] at h
+    split at h
+    · cases hd : Lex.readOverDigits n t with
+      | error e => simp [hd, Except.map] at h
+      | ok r' =>
+        simp only [hd, Except.map, Except.ok.injEq, Prod.mk.injEq] at h
+        obtain ⟨l, hl⟩ := digits_suffix hd
+        exact ⟨c :: l, by rw [hl, ← h.2]; simp⟩
+    · simp only [Except.ok.injEq, Prod.mk.injEq] at h; exact ⟨[], by simp [h.2]⟩
+
+private theorem skipSign_suffix (t : Text) : ∃ m, t = m ++ Lex.skipSign t := by
+  cases t with
+  | nil => exact ⟨[], rfl⟩
+  | cons x u =>
+    simp only [Lex.skipSign]
+    split
+    · exact ⟨[x], rfl⟩
+    · exact ⟨[], rfl⟩
+
+private theorem exponent_suffix {n : Nat} {s r : Text} {f : Bool} (h : Lex.readExponent n s = .ok (f, r)) : ∃ l, s = l ++ r := by
+  cases s with
+  | nil => simp [Lex.readExponent] at h; exact ⟨[], by simp [h.2]⟩
+  | cons c t =>
+    simp only [Lex.readExponent] at h
+    split at h
+    · cases hd : Lex.readOverDigits n (Lex.skipSign t) with
+      | error e => simp [hd, Except.map] at h
+      | ok r' =>
+        simp only [hd, Except.map, Except.ok.injEq, Prod.mk.injEq] at h
+        obtain ⟨l, hl⟩ := digits_suffix hd
+        obtain ⟨m, hm⟩ := skipSign_suffix t
+        exact ⟨c :: (m ++ l), by rw [hm, hl, ← h.2]; simp⟩
+    · simp only [Except.ok.injEq, Prod.mk.injEq] at h; exact ⟨[], by simp [h.2]⟩
+
+private theorem skipMinus_suffix (s : Text) : ∃ m, s = m ++ Lex.skipMinus s := by
+  cases s with
+  | nil => exact ⟨[], rfl⟩
+  | cons x u =>
+    simp only [Lex.skipMinus]
+    split
+    · exact ⟨[x], rfl⟩
+    · exact ⟨[], rfl⟩
+
+/-- `Float(...)` rather than `Integer(...)` -/
+def isFloatKind : TokKind → Bool
+  | .float => true
+  | _ => false
+
+/-- **`Lexer._read_number`: model = source.** The translated method (which calls the translated `_read_over_integer` /
+    `_read_over_digits`) returns the token the model's `readNumber` builds — Float or Integer, same start, end and text —
+    and leaves `_position` at its end, or raises the same exception class. -/
+theorem read_number_model_eq_source (pre s : Text) :
+    Tr.Lexer._read_number (pre ++ s) (pre.length : Int)
+      = match Lex.readNumber (pre ++ s).length s with
+        | .ok (tok, _) => .ok ((isFloatKind tok.kind, (tok.start : Int), (tok.stop : Int), tok.value), (tok.stop : Int))
+        | .error e => .error (excName e.kind) := by
+  rw [read_number_stage]
+  unfold T2 Lex.readNumber
+  cases h2 : Lex.readOverInteger (pre ++ s).length (Lex.skipMinus s) with
+  | error e => simp [bind, Except.bind]
+  | ok s2 =>
+    simp only [bind, Except.bind]
+    unfold T3
+    cases h3 : Lex.readFraction (pre ++ s).length s2 with
+    | error e => simp [bind, Except.bind]
+    | ok p3 =>
+      obtain ⟨f1, s3⟩ := p3
+      simp only []
+      unfold T5
+      cases h4 : Lex.readExponent (pre ++ s).length s3 with
+      | error e => simp [bind, Except.bind]
+      | ok p4 =>
+        obtain ⟨f2, s4⟩ := p4
+        simp only []
+        unfold T6
+        cases h5 : Lex.numberLookahead (pre ++ s).length s4 with
+        | error e => simp [bind, Except.bind]
+        | ok u =>
+          obtain ⟨m, hm⟩ := skipMinus_suffix s
+          obtain ⟨l2, hl2⟩ := integer_suffix h2
+          obtain ⟨l3, hl3⟩ := fraction_suffix h3
+          obtain ⟨l4, hl4⟩ := exponent_suffix h4
+          have hlen : s4.length ≤ s.length := by
+            rw [hm, hl2, hl3, hl4]; simp; omega
+          have hstop : (((pre ++ s).length - s4.length : Nat) : Int) = ((pre.length + (s.length - s4.length) : Nat) : Int) := by
+            simp; omega
+          have hsl := slice_mid' pre s (s.length - s4.length) (by omega)
+          simp only [bind, Except.bind, pure, Except.pure, T7, hstop, hsl, Lex.posAt]
+          have hstart : (pre ++ s).length - s.length = pre.length := by simp
+          have hstop2 : (pre ++ s).length - s4.length = pre.length + (s.length - s4.length) := by simp; omega
+          simp only [hstart, hstop2, Bool.false_or]
+          cases f1 <;> cases f2 <;> simp [isFloatKind]
+
 end PyGql.Props.C01
